@@ -67,6 +67,21 @@ func runPub() {
 	fam := map[string]int{}
 	results := map[string]int{}
 	var meta []interface{}
+	for _, f := range strings.Split(*pubFamilies, ",") {
+		if f != "seq" {
+			continue
+		}
+		for i := 0; i < *pubN; i++ {
+			sscs, sress := runSeq(r, i+1, em)
+			for j := range sscs {
+				runs = append(runs, em.run(sscs[j], &sress[j]))
+				meta = append(meta, map[string]interface{}{"family": sscs[j].Family, "note": fmt.Sprintf("sequence %d post %d", i+1, j+1), "faults": sscs[j].Faults, "result": sress[j].Result, "handled": sress[j].Handled, "statuses": sress[j].Statuses, "body": sscs[j].Body, "send": sscs[j].Send, "panic": sress[j].PanicMsg, "events": len(sress[j].Trace)})
+				fam[sscs[j].Family]++
+				results[sress[j].Result]++
+				s.Evaluations++
+			}
+		}
+	}
 	for _, sc := range scs {
 		res := runScenario(sc)
 		runs = append(runs, em.run(sc, &res))
